@@ -11,6 +11,7 @@ package main
 //   reshare thr=<t> remain=<…> join=<…> leave=<…> leader=<i> timeout=<s> catchup=<s> [sched=…] [mode=execute|abort|noexec] [tamper=period|scheme]
 //   handover node=<i>            real beacon.Handler + vault around the transition round of the last reshare
 //   vgt node=<i> field=<none|period|genesis|seed|id|scheme|past>   real validateGroupTransition old→new (new perturbed)
+//   abort nodes=<i,j,…>          the local abort command on each listed node (resets members stuck in a proposal phase)
 //   dump
 // sched = '/'-separated: delay=<ms> dup=<pct> slow=<i>:<ms> hold=<ms rel. boundary> holdx=<i>:<ms> down=<i> kick=<ms rel. boundary>
 
@@ -482,7 +483,12 @@ func (c *drNet) parts(idx []int) []*pdkg.Participant {
 func (c *drNet) cmd(i int, cm *pdkg.DKGCommand) string {
 	cm.Metadata = &pdkg.CommandMetadata{BeaconID: c.bid}
 	_, err := c.nodes[i].proc.Command(context.Background(), cm)
-	return classifyDKGErr(err, cm.GetExecute() != nil)
+	r := classifyDKGErr(err, cm.GetExecute() != nil)
+	if r == "saved-then-err:gossip-empty" {
+		// a one-node network: the state was saved, there was nobody to tell
+		return "ok"
+	}
+	return r
 }
 
 // nextBoundary: first instant ≥ from+lead that is a round boundary of (genesis, period).
@@ -988,8 +994,9 @@ func (c *drNet) handover(kv map[string]string) any {
 		Round     uint64 `json:"round"`
 		Live      string `json:"live"`
 		SharePub  string `json:"share_index"`
-		OldPart   string `json:"old_partial,omitempty"`
-		NewPart   string `json:"new_partial,omitempty"`
+		OldPart   map[string]any `json:"old_partial,omitempty"`
+		NewPart   map[string]any `json:"new_partial,omitempty"`
+		LiveNodes string         `json:"live_nodes"`
 		InfoConst bool   `json:"info_const"`
 	}
 	var trace []obs
@@ -1010,27 +1017,42 @@ func (c *drNet) handover(kv map[string]string) any {
 		}
 		return last
 	}
-	try := func(sh *key.Share, round uint64, prev []byte) string {
+	oldPub := og.PublicKey.PubPoly(sch)
+	newPub := ng.PublicKey.PubPoly(sch)
+	try := func(sh *key.Share, round uint64, prev []byte) map[string]any {
 		msg := sch.DigestBeacon(&common.Beacon{Round: round, PreviousSig: prev})
 		ps, err := sch.ThresholdScheme.Sign(sh.PrivateShare(), msg)
 		if err != nil {
-			return "sign-error"
+			return map[string]any{"outcome": "sign-error"}
 		}
+		idx, _ := sch.ThresholdScheme.IndexOf(ps)
+		// labels from the real verifier, independent of the handler under test
+		lab := map[string]any{"index": idx, "valid_old": sch.ThresholdScheme.VerifyPartial(oldPub, msg, ps) == nil,
+			"valid_new": sch.ThresholdScheme.VerifyPartial(newPub, msg, ps) == nil, "round": round}
+		last, _ := h.Store().Last(ctx)
+		lab["last_stored"] = last.Round
+		nr, _ := common.NextRound(clk.Now().Unix(), og.Period, og.GenesisTime)
+		lab["next_round"] = nr
 		_, err = h.ProcessPartialBeacon(ctx, &pdrand.PartialBeaconPacket{Round: round, PreviousSignature: prev, PartialSig: ps,
 			Metadata: &pdrand.Metadata{BeaconID: og.ID}})
-		if err == nil {
-			return "accepted"
+		out := "accepted"
+		if err != nil {
+			m := err.Error()
+			switch {
+			case strings.Contains(m, "not in the group file"):
+				out = "refused:not-in-group"
+			case strings.Contains(m, "invalid own"):
+				out = "refused:own"
+			case strings.Contains(m, "invalid round"):
+				out = "refused:round"
+			case strings.Contains(m, "invalid index"):
+				out = "refused:index"
+			default:
+				out = "refused:invalid-partial"
+			}
 		}
-		m := err.Error()
-		switch {
-		case strings.Contains(m, "not in the group file"):
-			return "refused:not-in-group"
-		case strings.Contains(m, "invalid own"):
-			return "refused:own"
-		case strings.Contains(m, "invalid round"):
-			return "refused:round"
-		}
-		return "refused:invalid-partial"
+		lab["outcome"] = out
+		return lab
 	}
 	last := tRound + 1
 	for r := uint64(1); r <= last; r++ {
@@ -1044,6 +1066,11 @@ func (c *drNet) handover(kv map[string]string) any {
 		}
 		prevSig = sig
 		o := obs{Round: r, Live: settle(), SharePub: strconv.Itoa(v.Index()), InfoConst: hex.EncodeToString(v.GetInfo().Hash()) == infoBefore}
+		var ln []string
+		for _, gn := range v.GetGroup().Nodes {
+			ln = append(ln, fmt.Sprintf("%d|%s", gn.Index, gn.Addr))
+		}
+		o.LiveNodes = strings.Join(ln, ";")
 		if peer >= 0 && r+3 >= tRound {
 			clk.Advance(0)
 			pp := prevSig
@@ -1057,6 +1084,8 @@ func (c *drNet) handover(kv map[string]string) any {
 		trace = append(trace, o)
 	}
 	return map[string]any{"op": "handover", "node": i, "peer": peer, "t_round": tRound, "target_round": tRound - 1, "trace": trace,
+		"self_addr": nd.part.Address, "period": int64(period / time.Second), "genesis": og.GenesisTime, "transition": ng.TransitionTime,
+		"info_hash": infoBefore, "old_chainhash": c.showGroup(&og).ChainHash, "new_chainhash": c.showGroup(&ng).ChainHash,
 		"chained": chained, "shift": shift, "old_index": old.KeyShare.Share.I, "new_index": fin.KeyShare.Share.I}
 }
 
@@ -1074,7 +1103,7 @@ func (c *drNet) vgt(kv map[string]string) any {
 	ng.Nodes = append([]*key.Node{}, fin.FinalGroup.Nodes...)
 	now := ng.TransitionTime - 5
 	switch kv["field"] {
-	case "none":
+	case "none", "asis":
 	case "period":
 		ng.Period += time.Second
 	case "genesis":
@@ -1134,6 +1163,19 @@ func dkgrunEngine(_ []string, in *bufio.Scanner, out *bufio.Writer) {
 				v = e.mkNet(f)
 			case "initial", "reshare":
 				v = e.net.runEpoch(f[0], parseKV(f[1:]))
+			case "abort":
+				kv := parseKV(f[1:])
+				st := map[string]string{}
+				for _, i := range parseIdx(kv["nodes"]) {
+					st[strconv.Itoa(i)] = e.net.cmd(i, &pdkg.DKGCommand{Command: &pdkg.DKGCommand_Abort{Abort: &pdkg.AbortOptions{}}})
+				}
+				time.Sleep(200 * time.Millisecond)
+				m := map[string]any{}
+				for _, n := range e.net.nodes {
+					cur, fin := e.net.states(n.i)
+					m[strconv.Itoa(n.i)] = map[string]any{"cur": e.net.showState(cur, n), "fin": e.net.showState(fin, n)}
+				}
+				v = map[string]any{"op": "abort", "outcome": st, "nodes": m}
 			case "handover":
 				v = e.net.handover(parseKV(f[1:]))
 			case "vgt":
